@@ -8,6 +8,14 @@ A statistic is [num, den] in lowest terms; NaN = [0,0]; [1,0] = the float bridge
 stats job    = {fn:"stats", H, W, z, v, vs, zdt, vdt, nd, all, ids, stats, rt:"df"|"da", backend, steps, tag}
 crosstab job = {fn:"crosstab", dim, H, W, z, v:[layer...], vs, zdt, vdt, cats, layer, nd, zall, zids, call, cids,
                 agg, backend, steps, tag}
+input variation (optional fields, the expected table does not depend on them):
+  zlay / vlay  memory layout of the zones / values buffer: "C" | "F" (np.asfortranarray) | "T" (transposed view of a
+               C array, axes swapped back) | "S" (every 2nd column of a wider array) | "R" (reversed view [::-1])
+  zdt / vdt    any NumPy integer / float dtype name (the driver checks that the numbers fit)
+  nd_raw       the nodata value handed to the library when it is a number the encoding cannot carry (fractional for
+               an integer raster, negative for unsigned, beyond the dtype range); `nd` is then a code equal to no cell
+  dims         names of the two spatial dimensions; catdim: name of the category dimension (3-D)
+  layer        3-D: position of the category dimension, 0 | 1 | 2 | -1 | -2
 """
 import json
 import math
@@ -108,9 +116,24 @@ def enc_zone(x):
 
 def mk_array(codes, scale, dtype, shape):
     a = np.array([dec(c, scale) for c in codes], dtype=np.float64).reshape(shape)
-    if dtype.startswith("int"):
-        return a.astype(dtype)
     return a.astype(dtype)
+
+
+def relayout(a, lay):
+    """same numbers, different buffer."""
+    if lay in (None, "C"):
+        return np.ascontiguousarray(a)
+    if lay == "F":
+        return np.asfortranarray(a)
+    if lay == "T":          # transposed view of a C-ordered array, axes swapped back
+        return np.ascontiguousarray(a.transpose()).transpose()
+    if lay == "S":          # every 2nd column of a wider array
+        wide = np.full(a.shape[:-1] + (2 * a.shape[-1],), 3, dtype=a.dtype)
+        wide[..., ::2] = a
+        return wide[..., ::2]
+    if lay == "R":          # reversed view
+        return np.ascontiguousarray(a[::-1])[::-1]
+    raise ValueError(lay)
 
 
 def ids_arg(codes, scale, as_int):
@@ -121,7 +144,9 @@ def ids_arg(codes, scale, as_int):
     return out
 
 
-def nodata_arg(code, vs, as_int):
+def nodata_arg(code, vs, as_int, raw=None):
+    if raw is not None:
+        return raw          # int (any size) or float, exactly as the driver wrote it
     if code == NONE:
         return None
     x = dec(code, vs)
@@ -187,21 +212,22 @@ def run_stats(j):
     n = H * W
     zint = j["zdt"].startswith("int")
     vint = j["vdt"].startswith("int")
-    za = mk_array(j["z"], 2, j["zdt"], (H, W))
-    va = mk_array(j["v"], vs, j["vdt"], (H, W))
+    za = relayout(mk_array(j["z"], 2, j["zdt"], (H, W)), j.get("zlay"))
+    va = relayout(mk_array(j["v"], vs, j["vdt"], (H, W)), j.get("vlay"))
+    dims = list(j.get("dims") or ["y", "x"])
     names = list(j["stats"])
     if any(s in USER_REDUCERS for s in names):
         sf = {s: (USER_REDUCERS[s] if s in USER_REDUCERS else Z._DEFAULT_STATS[s]) for s in names}
     else:
         sf = names
-    kw = dict(stats_funcs=sf, nodata_values=nodata_arg(j["nd"], vs, vint))
+    kw = dict(stats_funcs=sf, nodata_values=nodata_arg(j["nd"], vs, vint, j.get("nd_raw")))
     if not j["all"]:
         kw["zone_ids"] = ids_arg(j["ids"], 2, zint)
     if j["rt"] == "da":
         kw["return_type"] = "xarray.DataArray"
     backend = j.get("backend", "numpy")
-    zones = xr.DataArray(wrap(za, backend), dims=["y", "x"])
-    values = xr.DataArray(wrap(va, backend), dims=["y", "x"])
+    zones = xr.DataArray(wrap(za, backend), dims=dims)
+    values = xr.DataArray(wrap(va, backend), dims=dims)
     case = {"n": n, "z": j["z"], "v": j["v"], "nd": j["nd"], "all": bool(j["all"]), "ids": j["ids"],
             "stats": names, "rt": j["rt"], "rows": [], "tab": [], "ras": [], "steps": 0, "si": [], "zb": [],
             "job": j, "tag": j.get("tag", "")}
@@ -227,7 +253,8 @@ def run_stats(j):
         case["tab"] = [[enc_stat(s, x, vs, n) for x in res[s].tolist()] for s in names]
     else:
         data = np.asarray(res.data)
-        if data.shape != (len(names), H, W) or list(res.coords["stats"].values) != names:
+        if data.shape != (len(names), H, W) or list(res.coords["stats"].values) != names \
+                or list(res.dims) != ["stats"] + dims:
             case["error"] = "raster shape %r" % (data.shape,)
             return case
         case["ras"] = [[enc_stat(s, x, vs, n) for x in data[k].ravel().tolist()] for k, s in enumerate(names)]
@@ -243,29 +270,32 @@ def run_crosstab(j):
     n = H * W
     zint = j["zdt"].startswith("int")
     vint = j["vdt"].startswith("int")
-    za = mk_array(j["z"], 2, j["zdt"], (H, W))
+    za = relayout(mk_array(j["z"], 2, j["zdt"], (H, W)), j.get("zlay"))
+    dims = list(j.get("dims") or ["y", "x"])
+    catdim = j.get("catdim") or "cat"
     backend = j.get("backend", "numpy")
     cats = list(j.get("cats") or [])
-    kw = dict(agg=j["agg"], nodata_values=nodata_arg(j["nd"], vs, vint))
+    kw = dict(agg=j["agg"], nodata_values=nodata_arg(j["nd"], vs, vint, j.get("nd_raw")))
     if not j["zall"]:
         kw["zone_ids"] = ids_arg(j["zids"], 2, zint)
     if dim == 2:
-        va = mk_array(j["v"][0], vs, j["vdt"], (H, W))
-        values = xr.DataArray(wrap(va, backend), dims=["y", "x"])
+        va = relayout(mk_array(j["v"][0], vs, j["vdt"], (H, W)), j.get("vlay"))
+        values = xr.DataArray(wrap(va, backend), dims=dims)
         if not j["call"]:
             kw["cat_ids"] = ids_arg(j["cids"], vs, vint)
     else:
         va = np.stack([mk_array(l, vs, j["vdt"], (H, W)) for l in j["v"]])
         layer = j.get("layer", 0)
-        if layer == 0:
-            values = xr.DataArray(wrap(va, backend), dims=["cat", "y", "x"], coords={"cat": cats})
-        else:
-            va = np.ascontiguousarray(np.moveaxis(va, 0, 2))
-            values = xr.DataArray(wrap(va, backend), dims=["y", "x", "cat"], coords={"cat": cats})
-            kw["layer"] = 2
+        pos = layer % 3                      # where the category dimension sits: first, middle or last
+        va = relayout(np.moveaxis(va, 0, pos), j.get("vlay"))
+        vdims = list(dims)
+        vdims.insert(pos, catdim)
+        values = xr.DataArray(wrap(va, backend), dims=vdims, coords={catdim: cats})
+        if layer != 0 or j.get("layer_explicit"):
+            kw["layer"] = layer
         if not j["call"]:
             kw["cat_ids"] = [int(c) for c in j["cids"]]
-    zones = xr.DataArray(wrap(za, backend), dims=["y", "x"])
+    zones = xr.DataArray(wrap(za, backend), dims=dims)
     case = {"dim": dim, "n": n, "z": j["z"], "vs": j["v"], "cats": cats, "nd": j["nd"],
             "zall": bool(j["zall"]), "zids": j["zids"], "call": bool(j["call"]), "cids": j["cids"], "agg": j["agg"],
             "rows": [], "cols": [], "tab": [], "steps": 0, "si": [], "ev": [], "job": j, "tag": j.get("tag", "")}
